@@ -25,3 +25,38 @@ Proof.
   unfold template_obs. destruct (template_total_lemma d s) as [[l ->]|[e ->]]; [discriminate|].
   destruct e; discriminate.
 Qed.
+
+(* ---------- TagFormatter.parse ---------- *)
+Lemma pick_name_spec : forall args name acc,
+  match pick_name args name acc with
+  | Ok (_, final) => length final <= length acc + length args
+  | Err k => k = TemplateSyntaxError
+  | OutOfFuel => False
+  end.
+Proof.
+  induction args as [|k r IH]; intros name acc; cbn [pick_name].
+  - rewrite rev_length. cbn. lia.
+  - destruct (starts_with NAME_EQ k).
+    + destruct name; [|reflexivity]. specialize (IH (skipn 5 k) acc).
+      destruct (pick_name r (skipn 5 k) acc) as [[n f]|e|]; cbn [length] in *; [lia | exact IH | exact IH].
+    + specialize (IH name (k :: acc)).
+      destruct (pick_name r name (k :: acc)) as [[n f]|e|]; cbn [length] in *; [lia | exact IH | exact IH].
+Qed.
+
+(* the pre-processing of the bits of a component tag is total: a name and at most the given arguments, or TemplateSyntaxError *)
+Lemma component_formatter_total_lemma (tokens : list str) : tokens <> [] ->
+  match component_formatter_parse tokens with
+  | Ok (_, final) => length final < length tokens
+  | Err k => k = TemplateSyntaxError
+  | OutOfFuel => False
+  end.
+Proof.
+  intro Hne. destruct tokens as [|tag [|a0 rest]]; [congruence | reflexivity |].
+  unfold component_formatter_parse.
+  destruct (existsb (N.eqb 61) a0).
+  - pose proof (pick_name_spec (a0 :: rest) [] []) as H.
+    destruct (pick_name (a0 :: rest) [] []) as [[name final]|e|]; [|exact H|exact H].
+    destruct name as [|x name]; [reflexivity|]. destruct (wrapped_in_quotes (x :: name)); [|reflexivity].
+    cbn [length] in *. lia.
+  - destruct a0 as [|x a0]; [reflexivity|]. destruct (wrapped_in_quotes (x :: a0)); [|reflexivity]. cbn [length]. lia.
+Qed.
